@@ -380,7 +380,9 @@ func zzC17_honest(which int) {
 		if ok {
 			a, b := decodeSigPoint(raw1), decodeSigPoint(raw2)
 			verifAssert(bAnd(a != nil, b != nil), "accepted proofs decode")
-			verifAssert(bAnd(checkMembershipG1(a), checkMembershipG1(b)), "accepted proofs are in G1")
+			if a != nil && b != nil {
+				verifAssert(bAnd(checkMembershipG1(a), checkMembershipG1(b)), "accepted proofs are in G1")
+			}
 			verifReach("spock raw accepted")
 		}
 	}
@@ -468,6 +470,43 @@ func zzC16_pop(which int, tagLen int) {
 		verifAssert(bAnd(ok, err == nil), "the PoP verifies under the same key obtained by removal from the identity key")
 	}
 	verifReach("pop")
+}
+
+// zzC04_wide: long lists (beyond any fixed-size internal buffer one might introduce): the aggregate of n signatures
+// c_i*g1 is (sum c_i)*g1, and the aggregate of n public keys c_i*g2 is (sum c_i)*g2; removing all but the first
+// key from the aggregate gives the first key back.
+func zzC04_wide(n, k int) {
+	sks := make([]PrivateKey, n)
+	pks := make([]PublicKey, n)
+	sigs := make([]Signature, n)
+	// (k = 1 or 2 symbolic scalars used alternately: the defects in question depend on the length of the list, not on
+	// having n independent values)
+	var cs [2]scalar
+	nondetFrStar(&cs[0])
+	nondetFrStar(&cs[1])
+	for i := 0; i < n; i++ {
+		c := cs[i%k]
+		sk := newPrKeyBLSBLS12381(&c)
+		sks[i] = sk
+		pks[i] = sk.PublicKey()
+		sigs[i], _ = g1PointBytes(&c, false)
+	}
+	sum, err := AggregateBLSPrivateKeys(sks)
+	verifAssert(err == nil, "AggregateBLSPrivateKeys")
+	var e pointE1
+	generatorScalarMultG1(&e, &sum.(*prKeyBLSBLS12381).scalar)
+	want := make([]byte, g1BytesLen)
+	writePointE1(want, &e)
+	agg, err := AggregateBLSSignatures(sigs)
+	verifAssert(err == nil, "AggregateBLSSignatures")
+	assertEqBytes(agg, want, "aggregate of n signatures c_i*g1 = (sum c_i)*g1 (long list)")
+	aggPk, err := AggregateBLSPublicKeys(pks)
+	verifAssert(err == nil, "AggregateBLSPublicKeys")
+	verifAssert(aggPk.Equals(sum.PublicKey()), "aggregate of n public keys = public key of the aggregated private key (long list)")
+	back, err := RemoveBLSPublicKeys(aggPk, pks[1:])
+	verifAssert(err == nil, "RemoveBLSPublicKeys")
+	verifAssert(back.Equals(pks[0]), "removing all keys but the first gives the first key (long list)")
+	verifReach("wide aggregation")
 }
 
 // ---------------------------------------------------------------------------------------------
@@ -621,7 +660,16 @@ func digit(v, i, base int) int {
 // zzC02_many: n triples; keyPat / msgPat give (base n) the key id and message id of each position;
 // the candidate is the honest aggregate plus delta*g1. The verdict is true exactly when delta = 0,
 // for every iteration order of the internal maps and whichever grouping is selected.
-func zzC02_many(n, keyPat, msgPat int, twoTags bool) {
+func zzC02_many(n, keyPat, msgPat int, twoTags bool) { zzC02_manyImpl(n, keyPat, msgPat, twoTags, 0) }
+
+// zzC02_many_derived: the same with the key objects of the positions in `mask` obtained by aggregation and removal
+// (pk + extra - extra: the same point held in an object whose point is not in affine form)
+func zzC02_many_derived(n, keyPat, msgPat, mask int) { zzC02_manyImpl(n, keyPat, msgPat, false, mask) }
+
+func zzC02_manyImpl(n, keyPat, msgPat int, twoTags bool, derivedMask int) {
+	var extra scalar
+	nondetFrStar(&extra)
+	extraPk := newPrKeyBLSBLS12381(&extra).PublicKey()
 	xs := make([]scalar, n)
 	msgs := make([][]byte, n)
 	for i := 0; i < n; i++ {
@@ -640,6 +688,12 @@ func zzC02_many(n, keyPat, msgPat int, twoTags bool) {
 		k, m := digit(keyPat, i, n), digit(msgPat, i, n)
 		sk := newPrKeyBLSBLS12381(&xs[k]) // a fresh key object per position (equal points in distinct objects)
 		pks[i] = sk.PublicKey()
+		if (derivedMask>>uint(i))&1 == 1 {
+			both, err := AggregateBLSPublicKeys([]PublicKey{pks[i], extraPk})
+			verifAssert(err == nil, "aggregation of public keys")
+			pks[i], err = RemoveBLSPublicKeys(both, []PublicKey{extraPk})
+			verifAssert(err == nil, "removal")
+		}
 		ms[i] = msgs[m]
 		hs[i] = h1
 		if i%2 == 1 {
